@@ -398,7 +398,7 @@ func escRule(c *Ctx, r *Report, rule string) {
 				}
 				r.check(rule, "writeString: \\u escape has four hex digits and covers the code point", call.Pos(), okU, fmt.Sprintf("reach set %s", rs))
 			} else {
-				r.check(rule, fmt.Sprintf("writeString: escape of %d bytes", len(elems)), call.Pos(), false, "unknown escape form")
+				r.flag(rule, fmt.Sprintf("writeString: escape of %d bytes", len(elems)), call.Pos(), "unknown escape form")
 			}
 			continue
 		}
@@ -1103,6 +1103,7 @@ func c18Num(c *Ctx, r *Report) {
 		r.check("C18.NUM", "(*parser).readValue: number tokens reach ParseFloat", rv.Pos(), false, "no ParseFloat call: floats written by the writer cannot be read back")
 		return
 	}
+	r.check("C18.NUM", "(*parser).readValue: number tokens reach ParseFloat", pf.Pos(), true, "")
 	tok := pf.Call.Args[0]
 	derivedFromTok := func(v ssa.Value) bool {
 		seen := map[ssa.Value]bool{}
